@@ -279,7 +279,10 @@ pub async fn run_reader(mut r: UtpStreamReadHalf, mut ops: tokio::sync::mpsc::Un
                 (u64::MAX, buf)
             }
             ROp::Sleep(ms) => {
-                tokio::time::sleep(std::time::Duration::from_millis(ms as u64)).await;
+                // (after end-of-stream or an error the script has nothing left to wait for)
+                if !ended {
+                    tokio::time::sleep(std::time::Duration::from_millis(ms as u64)).await;
+                }
                 continue;
             }
             ROp::Drop => {
